@@ -584,8 +584,10 @@ def reset(salt=0, split_ptx=True):
     eng = sa_base.get_engine()
     if _TABLES is None:
         insp = sa.inspect(eng)
+        # mistral_metrics holds the cluster maintenance status row that
+        # setup_db() creates: keep it
         _TABLES = [t for t in insp.get_table_names()
-                   if t != 'alembic_version']
+                   if t not in ('alembic_version', 'mistral_metrics')]
     with eng.begin() as conn:
         conn.execute(sa.text('PRAGMA foreign_keys=OFF'))
         for t in _TABLES:
@@ -790,6 +792,21 @@ def _canon(v):
 def snapshot(full=False):
     """All execution rows, as plain dicts keyed by id."""
     snap = {'wf': {}, 'task': {}, 'action': {}}
+    prev_ctx = auth_context.ctx() if auth_context.has_ctx() else None
+    auth_context.set_ctx(_admin_ctx())
+    try:
+        _snapshot_into(snap, full)
+    finally:
+        auth_context.set_ctx(prev_ctx)
+    return snap
+
+
+def _admin_ctx():
+    return auth_context.MistralContext(user_id=None, project_id=None,
+                                       auth_token=None, is_admin=True)
+
+
+def _snapshot_into(snap, full):
     with db_api.transaction():
         for w in db_api.get_workflow_executions(sort_keys=[]):
             snap['wf'][w.id] = {
